@@ -4,7 +4,8 @@
 From Coq Require Import List Ascii String NArith ZArith QArith Bool.
 From LS Require Import Model.Bytes Model.Sx Model.Tags Gen.Consts
   Model.Quote Model.Framing Model.Keepalive Model.Codec Model.Readers Model.AriSpec
-  Model.EntryWire Model.EntryReply Model.EntryItem Model.EntrySender Model.EntryShell.
+  Model.EntryWire Model.EntryReply Model.EntryItem Model.EntrySender Model.EntryShell
+  Model.EntryHandlers.
 Import ListNotations.
 
 Definition un_Q (x : sx) : option Q :=
@@ -108,6 +109,9 @@ Definition entry (x : sx) : sx :=
       else if head_is "pool_size" h then e_pool_size args
       else match entry_reply h args with
            | Some r => r
-           | None => sx_err "unknown function"
+           | None => match entry_handlers h args with
+                     | Some r => r
+                     | None => sx_err "unknown function"
+                     end
            end
   end.
